@@ -242,12 +242,12 @@ Section Shape.
   Qed.
 
   Lemma ext_local_loop flv il es : Forall Pe es -> forall nls lastcall st,
-    incl (flat_map asg_exp es) A -> (length es <= length nls)%nat -> t_frames st <> [] ->
+    incl (flat_map asg_exp es) A -> t_frames st <> [] ->
     ext (t_frames st) (t_frames (local_loop (map (fun e => (e, tr_exp flv e)) es) nls lastcall il st))
         (rev (local_vars es nls lastcall il)) (flat_map sk_exp es).
   Proof.
-    intros Hall nls lastcall st HA Hlen Hne. unfold local_loop.
-    rewrite firstn_all2 by (rewrite map_length; lia). rewrite !map_map. cbn [fst snd]. rewrite map_id.
+    intros Hall nls lastcall st HA Hne. unfold local_loop.
+    rewrite !map_map. cbn [fst snd]. rewrite map_id.
     pose proof (ext_apply_exps flv es Hall st HA Hne) as H1.
     pose proof (ext_local_adds il es nls lastcall _ (ext_nonempty _ _ _ _ H1)) as H2.
     eapply ext_eq; [exact (ext_trans _ _ _ _ _ _ _ H1 H2)|apply app_nil_r|apply app_nil_r].
@@ -427,8 +427,8 @@ Section Shape.
       intros vars es l Hv _ IHes flv slv st HA Hne. cbn [tr_stat sk_stat fst snd]. cbn in HA.
       apply (ext_assign_loop flv slv vars Hv es IHes st HA Hne).
     - (* local *)
-      intros ns ls at_ es l _ Hlen Hle _ IHes flv slv st HA Hne. cbn [tr_stat sk_stat fst snd]. cbn in HA.
-      apply ext_local_loop; auto. rewrite combine_length. lia.
+      intros ns ls at_ es l _ Hlen _ IHes flv slv st HA Hne. cbn [tr_stat sk_stat fst snd]. cbn in HA.
+      apply ext_local_loop; auto.
     - (* local function *)
       intros n nl f ps pl b lf va l _ _ IH flv slv st HA Hne. cbn [tr_stat sk_stat fst snd].
       pose proof (ext_add_var (mkV n nl (ref_of_exp (EFunc [] f ps pl b lf va false)) false) st Hne) as H1.
